@@ -695,7 +695,7 @@ def _extrapolate_configs():
         for k, cells in enumerate(EXTRA_MESHES[ct]):
             for o in ("scalar", "vector", "tensor23"):
                 cfg = dict(ct=ct, mesh=k, values=o)
-                heavy = (ct == "hexahedron27") or (ct == "hexahedron" and (k > 1 or o == "tensor23")) or (ct == "quad9" and o == "tensor23")
+                heavy = (ct == "hexahedron27" and o == "tensor23") or (ct == "hexahedron" and (k > 1 or o == "tensor23")) or (ct == "quad9" and o == "tensor23")
                 if heavy:
                     cfg["tier"] = "thorough"
                 out.append(cfg)
